@@ -16,6 +16,7 @@ package main
 
 import (
 	"bufio"
+	"context"
 	"crypto/ecdsa"
 	"crypto/elliptic"
 	"crypto/rand"
@@ -271,6 +272,13 @@ func (p *c17Provider) ServeHTTP(w http.ResponseWriter, r *http.Request) {
 		_, _ = w.Write([]byte(`{"error":"invalid_grant","error_description":"refused by the fake provider"}`))
 		return
 	}
+	// (round 5) a token endpoint that belongs to a DISCOVERED provider (path /token/i/...) also hands out an ID Token
+	if d := c17DiscCur; d != nil {
+		if idt := d.idTokenFor(r.URL.EscapedPath()); idt != "" {
+			_, _ = w.Write([]byte(`{"access_token":"at-c17","token_type":"Bearer","expires_in":3600,"id_token":"` + idt + `"}`))
+			return
+		}
+	}
 	_, _ = w.Write([]byte(`{"access_token":"at-c17","token_type":"Bearer","expires_in":3600}`))
 }
 
@@ -303,10 +311,20 @@ type c17RP struct {
 	loginParam [][2]string // custom URL parameters of the login handler
 	cbParam    [][2]string // custom parameters of the callback handler (token request)
 	maxAge     int
+	// (round 5) how the relying party was CONSTRUCTED: the constructor, the application's option list in order, and - for
+	// NewRelyingPartyOIDC - the discovery document it was built against. `pkce` above is what the APPLICATION configured
+	// (WithPKCE is in the option list), not what the relying-party object reports.
+	ctor  string // oauth | oidc
+	rOpts []string
+	disc  c17DiscChoice
 }
 
 func (c *c17RP) cfgKV(l *hx.Line) {
 	l.S("hk", c17Hex(c.hk)).S("bk", c17Hex(c.bk)).L("chopts", c.chOpts).B("pkce", c.pkce).I("sg", int64(c.signer)).S("cid", c.clientID).S("ruri", c.redirect).L("sc", c.scopes)
+	l.S("ctor", c.ctor).L("ropts", c.rOpts)
+	if c.ctor == "oidc" {
+		c17DiscCur.discKV(l, c.disc, c.clientID)
+	}
 }
 
 func paramKV(l *hx.Line, ps [][2]string) {
@@ -390,34 +408,82 @@ func newC17RP(r *hx.Rand, tokenURL string, force map[string]int, keys *c17KeyPai
 		chOpts = append(chOpts, o.opt)
 	}
 	handler := httphelper.NewCookieHandler(c.hk, c.bk, chOpts...)
-	opts := []rp.Option{
-		rp.WithAuthStyle(hx.Pick(r, oauth2.AuthStyleInParams, oauth2.AuthStyleInHeader)),
-		rp.WithUnauthorizedHandler(func(w http.ResponseWriter, _ *http.Request, desc string, state string) {
+	// (round 5) the application's option list, as (tag, option) pairs in RANDOM order; WithPKCE / WithCookieHandler may both occur
+	// (any order, the handler is the same object), options may be repeated. The tags go onto the line (`ropts`): they are what the
+	// application configured.
+	type rOpt struct {
+		tag string
+		opt rp.Option
+	}
+	authStyle := hx.Pick(r, oauth2.AuthStyleInParams, oauth2.AuthStyleInHeader)
+	ropts := []rOpt{
+		{fmt.Sprintf("authstyle:%d", int(authStyle)), rp.WithAuthStyle(authStyle)},
+		{"unauth", rp.WithUnauthorizedHandler(func(w http.ResponseWriter, _ *http.Request, desc string, state string) {
 			w.Header().Set("X-Verif-Hook", "unauth")
 			w.Header().Set("X-Verif-State", hx.Esc(state))
 			http.Error(w, desc, http.StatusUnauthorized)
-		}),
-		rp.WithErrorHandler(func(w http.ResponseWriter, _ *http.Request, errType, errDesc, state string) {
+		})},
+		{"errh", rp.WithErrorHandler(func(w http.ResponseWriter, _ *http.Request, errType, errDesc, state string) {
 			w.Header().Set("X-Verif-Hook", "errh")
 			w.Header().Set("X-Verif-State", hx.Esc(state))
 			http.Error(w, errType+": "+errDesc, http.StatusInternalServerError)
-		}),
+		})},
 	}
 	if c.pkce {
-		opts = append(opts, rp.WithPKCE(handler))
+		ropts = append(ropts, rOpt{"pkce", rp.WithPKCE(handler)})
+		if r.Chance(20) {
+			ropts = append(ropts, rOpt{"cookie", rp.WithCookieHandler(handler)})
+		}
+		if r.Chance(10) {
+			ropts = append(ropts, rOpt{"pkce", rp.WithPKCE(handler)})
+		}
 	} else {
-		opts = append(opts, rp.WithCookieHandler(handler))
+		ropts = append(ropts, rOpt{"cookie", rp.WithCookieHandler(handler)})
 	}
 	switch c.signer {
 	case 1:
-		opts = append(opts, rp.WithJWTProfile(func() (jose.Signer, error) { return c17Signer, nil }))
+		ropts = append(ropts, rOpt{"jwtok", rp.WithJWTProfile(func() (jose.Signer, error) { return c17Signer, nil })})
 	case 2:
-		opts = append(opts, rp.WithJWTProfile(func() (jose.Signer, error) { return failSigner{}, nil }))
+		ropts = append(ropts, rOpt{"jwtfail", rp.WithJWTProfile(func() (jose.Signer, error) { return failSigner{}, nil })})
 	}
-	party, err := rp.NewRelyingPartyOAuth(&oauth2.Config{
-		ClientID: c.clientID, ClientSecret: "secret", RedirectURL: c.redirect, Scopes: c.scopes,
-		Endpoint: oauth2.Endpoint{AuthURL: "http://op.local/authorize", TokenURL: tokenURL},
-	}, opts...)
+	c.ctor = "oauth"
+	if c17DiscCur != nil && r.Chance(45) {
+		c.ctor = "oidc"
+	}
+	if v, ok := force["oidc"]; ok && c17DiscCur != nil {
+		c.ctor = map[bool]string{true: "oidc", false: "oauth"}[v == 1]
+	}
+	if c.ctor == "oidc" {
+		c.disc = c17DrawDisc(r)
+		if r.Chance(20) {
+			ropts = append(ropts, rOpt{"discurl", rp.WithCustomDiscoveryUrl(c17DiscCur.issuer(c.disc, c.clientID) + "/alt/discovery")})
+		}
+		if r.Chance(20) {
+			ropts = append(ropts, rOpt{"algsdisc", rp.WithSigningAlgsFromDiscovery()})
+		}
+	}
+	if r.Chance(15) {
+		ropts = append(ropts, rOpt{"logger", rp.WithLogger(nil)})
+	}
+	for i := len(ropts) - 1; i > 0; i-- {
+		j := r.Intn(i + 1)
+		ropts[i], ropts[j] = ropts[j], ropts[i]
+	}
+	var opts []rp.Option
+	for _, o := range ropts {
+		c.rOpts = append(c.rOpts, o.tag)
+		opts = append(opts, o.opt)
+	}
+	var party rp.RelyingParty
+	var err error
+	if c.ctor == "oidc" {
+		party, err = rp.NewRelyingPartyOIDC(context.Background(), c17DiscCur.issuer(c.disc, c.clientID), c.clientID, "secret", c.redirect, c.scopes, opts...)
+	} else {
+		party, err = rp.NewRelyingPartyOAuth(&oauth2.Config{
+			ClientID: c.clientID, ClientSecret: "secret", RedirectURL: c.redirect, Scopes: c.scopes,
+			Endpoint: oauth2.Endpoint{AuthURL: c17AuthURL, TokenURL: tokenURL},
+		}, opts...)
+	}
 	if err != nil {
 		return nil, err
 	}
@@ -453,6 +519,32 @@ func (g *c17Gen) useRP(c *c17RP) {
 	g.codecs.use(c.hk, c.bk)
 	g.stats["key.hashlen."+c17HashClass(len(c.hk))]++
 	g.stats[fmt.Sprintf("key.blocklen.%d", len(c.bk))]++
+	// (round 5) how the relying party was constructed
+	g.stats["rp.ctor."+c.ctor]++
+	pk := "off"
+	if c.pkce {
+		pk = "on"
+	}
+	if c.ctor == "oidc" {
+		g.stats["rp.disc.ccm."+c17CCM[c.disc.ccm].tag+".pkce-"+pk]++
+		g.stats[fmt.Sprintf("rp.disc.algs.%d", c.disc.algs)]++
+		g.stats[fmt.Sprintf("rp.disc.optional-members.%d", c.disc.bits)]++
+	}
+	nPk, nCk := 0, 0
+	for i, o := range c.rOpts {
+		switch o {
+		case "pkce":
+			nPk++
+		case "cookie":
+			nCk++
+		case "discurl", "algsdisc", "logger":
+			g.stats["rp.opt."+o]++
+		}
+		if i == 0 {
+			g.stats["rp.opt.first."+strings.SplitN(o, ":", 2)[0]]++
+		}
+	}
+	g.stats[fmt.Sprintf("rp.opts.pkce%d+cookie%d", nPk, nCk)]++
 }
 
 func (g *c17Gen) markFresh(l *hx.Line) {
@@ -1635,6 +1727,8 @@ func c17Stream(r *hx.Rand, tier string, n int, w *bufio.Writer) map[string]int {
 		c17Signer = s
 	}
 	tokenURL := g.srv.URL + "/token"
+	c17DiscCur = newC17Disc(tokenURL)
+	defer func() { c17DiscCur.srv.Close(); c17DiscCur = nil }()
 	for g.caseNo < n {
 		switch x := g.r.Intn(100); {
 		case x < 14:
